@@ -954,8 +954,15 @@ fn reorder_add(line: &str) -> String {
     line.split_whitespace().collect::<Vec<_>>().join(" ")
 }
 
+/// database files that must survive the `TowerSys` that created them (a simulated process death: the next
+/// `TowerSys` reopens the file)
+pub static KEEP_DB: std::sync::Mutex<Vec<PathBuf>> = std::sync::Mutex::new(Vec::new());
+
 impl Drop for TowerSys {
     fn drop(&mut self) {
+        if KEEP_DB.lock().map(|k| k.contains(&self.db_path)).unwrap_or(false) {
+            return;
+        }
         let _ = std::fs::remove_file(&self.db_path);
         let _ = std::fs::remove_file(self.db_path.with_extension("sql3-journal"));
     }
